@@ -576,7 +576,7 @@ Lemma w_err_ok req sec : forallb write_ok (w_err req sec) = true. Proof. reflexi
 
 Lemma step_ext_ok s now o : ext_ok s (fst (step pol sw maxd sg s now o)).
 Proof.
-  destruct o as [r x v|r x|r|r x|r x v|r x|r e x l t|r e x|pa c xs l t|d0 r x|r x|a b|a b|d]; cbn [step].
+  destruct o as [r x v|r x|r|r x|r x v|r x|r e x l t|r e x|pa c xs l t|d0 r x|pa c|pa c|r x|a b|a b|d]; cbn [step].
   - (* set *)
     unfold op_set. destruct (has_secret s x).
     + pose proof (check_access_wlog s now r x 2) as Hw.
@@ -657,6 +657,14 @@ Proof.
   - (* sealed window *)
     unfold op_sealed. destruct (sg || negb sw || N.eqb r root); cbn [fst]; [apply ext_ok_refl|].
     eapply ext_ok_same; [apply ext_ok_refl|reflexivity].
+  - (* revoke_delegation *)
+    unfold op_revoke_deleg. destruct (find _ (delegs s)) as [rec|]; cbn [fst].
+    + apply ext_ok_log; [eapply ext_ok_same; [apply ext_ok_refl|reflexivity]|].
+      apply forallb_forall. intros w Hw. apply in_flat_map in Hw. destruct Hw as (x & _ & Hw).
+      cbn in Hw. destruct Hw as [<-|[]]. reflexivity.
+    + apply ext_ok_log; [apply ext_ok_refl|reflexivity].
+  - (* revoke_delegation_cascading *)
+    unfold op_revoke_cascade. cbn [fst]. eapply ext_ok_same; [apply ext_ok_refl|reflexivity].
   - (* get_permission *)
     pose proof (get_permission_wlog s now r x) as Hw.
     destruct (get_permission pol sw s now r x) as [s1 pl]. cbn [fst] in *.
@@ -775,4 +783,19 @@ Proof.
   - exists r; reflexivity.
   - exfalso. revert E. apply bfs_terminates. unfold bfs_fuel, unvis. cbn [length].
     pose proof (filter_len_le (fun e : N * N => negb (mem (snd e) [src])) (members s)). lia.
+Qed.
+
+(* revoke_delegation removes every access edge child -> secret for each secret of the delegation record,
+   whatever level the edges carry *)
+Theorem revoke_deleg_removes s parent child s' :
+  op_revoke_deleg s parent child = (s', R_OK) ->
+  exists rec, In rec (delegs s) /\ d_parent rec = parent /\ d_child rec = child /\
+    forall g, In g (grants s') -> ~ (g_from g = child /\ In (g_secret g) (d_secs rec)).
+Proof.
+  unfold op_revoke_deleg. destruct (find _ (delegs s)) as [rec|] eqn:Ef; [|intros E; injection E as _ E; discriminate].
+  intros E. injection E as <-. apply find_some in Ef. destruct Ef as [Hin Hc].
+  apply andb_true_iff in Hc. destruct Hc as [H1 H2]. apply N.eqb_eq in H1, H2.
+  exists rec. repeat split; auto. cbn [grants log]. intros g Hg [E1 E2].
+  apply filter_In in Hg. destruct Hg as [_ Hg]. rewrite E1, N.eqb_refl in Hg. cbn [andb] in Hg.
+  apply negb_true_iff in Hg. apply mem_spec in E2. congruence.
 Qed.
